@@ -44,6 +44,10 @@ def asm_spec(force_plenum=False, auto_targets_only=False):
             "ductThick": st.floats(0.01, 0.05).map(_r),
             "gridOverlap": st.booleans(),
             "pin": st.sampled_from(["fuel", "fuel", "fuel", "control"]),
+            # a second component with a target-eligible flag in some blocks; the pairs are the adjacent entries of armi's
+            # documented preference order FUEL, CONTROL, POISON, SHIELD, SLUG:
+            # 0 fuel block + control rods, 1 control block + poison rods, 2 shield block + poison rods, 3 shield block + slugs
+            "extra": st.sampled_from([None, None, None, 0, 1, 2, 3]),
             "mat": st.fixed_dictionaries(
                 {
                     "fuel": st.sampled_from(FUEL_MATS),
@@ -90,14 +94,23 @@ def _dims(spec):
     rings = {1: 1, 7: 2, 19: 3, 37: 4, 61: 5, 127: 7, 169: 8, 271: 10}[spec["mult"]]
     # armi's blueprint validation (HexBlock.verifyBlockDims): the hex-packed, wire-wrapped bundle must fit in the duct
     need = math.sqrt(3.0) * (rings - 1) * p + cod + 2.0 * wod
+    if spec.get("extra") is not None:
+        need += 2.0 * cod  # room for the extra rods
     ip = _r(need * spec["slack"] + 0.01, 4)
     op = _r(ip * (1.0 + 2.0 * spec["ductThick"]), 4)
     pitch = _r(op * 1.02, 4)
     return dict(cod=cod, cid=cid, fod=fod, fid=fid, sod=sod, wod=wod, hd=_r(cod + wod, 5), ip=ip, op=op, pitch=pitch)
 
 
+EXTRA = {0: ("fuel", "control", "B4C"), 1: ("control", "poison", "B4C"), 2: ("shield", "poison", "B4C"), 3: ("shield", "slug", "HT9")}
+EXTRA_MULT = 3.0  # never a pin multiplicity: the extra rods only link to the extra rods of the block below
+# the documented order of ExpansionData.determineTargetComponent
+PREFERENCE = ["fuel", "control", "poison", "shield", "slug"]
+
+
 def block_kinds(spec):
-    kinds = ["grid plate"] * spec["nGrid"] + ["shield"] * spec["nShield"] + [spec["pin"]] * spec["nFuel"]
+    pin = "control" if spec.get("extra") == 1 else spec["pin"]
+    kinds = ["grid plate"] * spec["nGrid"] + ["shield"] * spec["nShield"] + [pin] * spec["nFuel"]
     plen = ["plenum"] * spec["nPlenum"]
     if spec["aclp"] and len(plen) == 2:
         plen[1] = "aclp plenum"
@@ -188,6 +201,14 @@ def layout(spec):
             comps.append(circ("clad", m["clad"], d["cid"], d["cod"]))
             if spec["wire"]:
                 comps.append(wire())
+            ex = EXTRA.get(spec.get("extra"))
+            if ex and ex[0] == kind:
+                rod = circ(ex[1], spec["single"] or ex[2], 0.0, d["cod"])
+                rod["mult"] = EXTRA_MULT
+                rod["dims"]["mult"] = EXTRA_MULT
+                comps.append(rod)
+                # target by flag preference (also what _isFuelLocked gives for a fuel block)
+                auto = min(auto, ex[1], key=PREFERENCE.index)
             comps.append(coolant())
             comps.append(hexa("duct", m["duct"], d["ip"], d["op"]))
             comps.append(hexa("intercoolant", "Sodium", d["op"], d["pitch"], solid=False))
